@@ -2,7 +2,7 @@
 # verify a round-2 seeded change in /tmp/wt2-<id> against /tmp/seed2-<id>/patch.diff
 # (demo is either tests/seeded_demo.rs or a shell script demo.sh / seeded_demo.sh)
 id=$1
-wt=/tmp/wt2-$id; sd=/tmp/seed2-$id
+R=${R:-2}; wt=/tmp/wt$R-$id; sd=/tmp/seed$R-$id
 export CARGO_TARGET_DIR=$wt/target CARGO_NET_OFFLINE=true WT=$wt
 cd $wt || exit 2
 git checkout -q -- . 2>/dev/null
